@@ -1252,6 +1252,8 @@ def _dtype_kind(dtype):
 
 def _to_int_dtype(v):
     if sort_of(v) == "real":
+        if is_z3(v) and z3.is_to_real(v):
+            return v.arg(0)
         if is_z3(v):
             return z3.If(v >= 0, z3.ToInt(v), -z3.ToInt(-v))
         import math
